@@ -102,9 +102,18 @@ func (p *Program) genFunc(c *Ctx, fn *ssa.Function, ct *Contract) {
 	sig := fn.Signature
 	env := c.contractEnv(ct, sig, nil, fr.params, fn.Pkg.Pkg, entry, nil)
 	var reqs []*Term
-	for _, r := range ct.Requires {
+	for k, r := range ct.Requires {
 		t := c.safeEvalBool(env, r)
 		reqs = append(reqs, t)
+		if r.Assumed {
+			c.trustedUsed["input well-formedness assumed by "+shortPkg(ct.Pkg)+"."+ct.FuncName+": "+r.Src] = true
+		}
+		if len(ct.Implements) > 0 && !r.FromIface && !r.Assumed {
+			// behavioural subtyping: a dynamically dispatched call establishes the interface's preconditions only, so the
+			// method's own preconditions must follow from them
+			c.oblige(&Obligation{Name: fmt.Sprintf("%s/subtype-pre#%s", c.unitName, clauseLabel(r, k)), Func: c.unitName, Kind: "pre",
+				Guard: tTrue, Goal: t, Pos: fmt.Sprintf("%s:%d", r.File, r.Line), Src: "own precondition follows from the interface contract's: " + r.Src, Tags: r.Tags})
+		}
 		c.assume(t)
 	}
 	for _, ax := range p.Axioms {
@@ -187,6 +196,10 @@ func (p *Program) genFunc(c *Ctx, fn *ssa.Function, ct *Contract) {
 				if e.Tags["thorough"] && c.tier != "thorough" {
 					continue
 				}
+				if e.Tags["assumed"] {
+					c.trustedUsed["assumed postcondition of "+shortPkg(ct.Pkg)+"."+ct.FuncName+": "+e.Src] = true
+					continue
+				}
 				c.curTop = r.block
 				goal := c.safeEvalBool(renv, e)
 				if goal.S == "true" {
@@ -205,9 +218,44 @@ func (p *Program) genFunc(c *Ctx, fn *ssa.Function, ct *Contract) {
 			if e.Tags["thorough"] && c.tier != "thorough" {
 				continue
 			}
+			if e.Tags["assumed"] {
+				// stated but not proved here (e.g. determinism of a cryptographic primitive): listed in the trusted base
+				c.trustedUsed["assumed postcondition of "+shortPkg(ct.Pkg)+"."+ct.FuncName+": "+e.Src] = true
+				continue
+			}
 			goal := c.safeEvalBool(penv, e)
 			c.oblige(&Obligation{Name: fmt.Sprintf("%s/ensures#%s", c.unitName, clauseLabel(e, k)), Func: c.unitName, Kind: "ensures",
 				Guard: rg, Goal: goal, Pos: fmt.Sprintf("%s:%d", e.File, e.Line), Src: e.Src, Tags: e.Tags})
+		}
+	}
+	// covers: situations that must be reachable at a normal return
+	if len(ct.Covers) > 0 && len(rets) > 0 {
+		cg, cst, cres := rg, post, res
+		top := -1
+		if len(rets) > 6 {
+			last := rets[0]
+			for _, r := range rets {
+				if r.block > last.block {
+					last = r
+				}
+			}
+			cg, cst, top = last.guard, last.st, last.block
+			switch sig.Results().Len() {
+			case 0:
+			case 1:
+				cres = last.vals[0]
+			default:
+				cres = Val{Tuple: last.vals}
+			}
+		}
+		cenv := c.contractEnv(ct, sig, nil, fr.params, fn.Pkg.Pkg, cst, entry)
+		bindResults(cenv, sig, cres)
+		for k, cv := range ct.Covers {
+			c.curTop = top
+			t := c.safeEvalBool(cenv, cv)
+			c.oblige(&Obligation{Name: fmt.Sprintf("%s/cover#%s", c.unitName, clauseLabel(cv, k)), Func: c.unitName, Kind: "cover", Guard: tAnd(cg, t), Goal: tFalse, ExpectFail: true,
+				Src: "reachable at a normal return (vacuity guard): " + cv.Src, Pos: fmt.Sprintf("%s:%d", cv.File, cv.Line), Tags: cv.Tags})
+			c.curTop = -1
 		}
 	}
 	// frame
